@@ -403,7 +403,8 @@ def r_dedup(db, rep):
     allocs = [(p, n, e) for p, n, e in sb.allocs if p == ("param", 2, "[]")]
     rets = [n for n in f.live_nodes() if n["k"] == "ReturnStmt" and n.get("value") is not None and const_value(n["value"]) is None]
     if not allocs or not rets:
-        rep.viol("SSA::locate#occs-extent", f.loc, "cannot find the allocation of *occs / the returned count in SSA::locate", f.qn)
+        rep.notes.append("SSA::locate does not allocate the occurrence array through its out-parameter with new[] (another ownership "
+                         "scheme): the count+1 extent is not decided here")
     else:
         ext = allocs[0][2]
         sb2 = SeqBuilder(db, f, "c", nosubst=True)
